@@ -20,7 +20,7 @@ theorem relw_init : RelW (Loc.init 0) St.init Spec.Env.init :=
 theorem main_funrel (t : Tmpl) (hg : GoodTop t = true) :
     FunRel ⟨[], ⟨refsLoop t, false, false⟩, codegen t⟩ ⟨[], noFlags, t, .main, 0⟩ := by
   simp only [GoodTop, Bool.and_eq_true] at hg
-  have := FunRel.def_ (mainScope t) [] noFlags t (refsLoop t) 0 .main (.inr ⟨rfl, rfl⟩) rfl hg.2 hg.1
+  have := FunRel.def_ (mainScope t) [] noFlags t (refsLoop t) false 0 .main (.inr ⟨rfl, rfl, rfl⟩) rfl hg.2 hg.1
   simpa [codegen, renderCallable, mainScope, noFlags] using this
 
 /-- `render_body` of template 0, from the initial state -/
@@ -161,7 +161,7 @@ def defSF (ps : List Name) (fl : DefFlags) (body : Tmpl) (mod : Nat) : Spec.SFun
 /-- calling the render callable generated for a top-level def: what the specification says about the def -/
 theorem invoke_def_refines (ts : List (Tmpl × Option Bool)) (k : Nat) (hG : GoodAll ts) (ps : List Name) (fl : DefFlags)
     (body : Tmpl) (hc : fl.cached = false) (hnd : nodupB (declNames body) = true)
-    (hg : Good (defScope body) false (Spec.isBuffering fl) body = true)
+    (hg : Good (defScope body) false (Spec.isBuffering fl) true false body = true)
     (own : Bool) (mod : Nat) (clex : NS) (vs : List Str) (l : Loc) (σ : St) (E : Spec.Env) (pend : Spec.SNS) (i : Nat)
     (top : Str) (rest : List (Nat × Str)) (hR : RelW l σ E) (hN : NSRel σ.next pend) (hl : LocOK l) (hlex : NSOK clex)
     (hσ : StOK σ) (hb : σ.bufs = (i, top) :: rest) (n : Nat) (r : VRes) (σ' : St)
@@ -170,7 +170,7 @@ theorem invoke_def_refines (ts : List (Tmpl × Option Bool)) (k : Nat) (hG : Goo
     ∃ out, σ'.bufs = (i, top ++ out) :: rest ∧ Post σ σ' ∧
       Ev (fun m => Spec.sinvoke ⟨ts, k⟩ m (defSF ps fl body mod) [] vs E pend σ.cnt) ⟨convV r, out, σ'.cnt⟩ := by
   have hfr : FunRel ⟨ps, ⟨own, fl.deco, false⟩, renderCallable false fl body⟩ (defSF ps fl body mod) := by
-    have := FunRel.def_ (defScope body) ps fl body own mod .def_ (.inl ⟨rfl, rfl, rfl⟩) hc hnd hg
+    have := FunRel.def_ (defScope body) ps fl body own false mod .def_ (.inl ⟨rfl, rfl⟩) hc hnd hg
     simpa [renderCallable, defScope, defSF] using this
   exact (rc_all ts k hG n).invoke _ (defSF ps fl body mod) [] vs l σ E pend i top rest r σ' hfr rfl
     (fun h => by simp [defSF] at h) hR hN hl hlex hσ hb he hr
